@@ -227,6 +227,80 @@ def source_tree(case_lines):
     return out
 
 
+def source_leaves(case_lines):
+    """pre-order list, one dict per written instance: property name -> (kind, bytes) for the string-like values of the
+    source DOM whose text an independent parser must recover exactly (Str: <string>/<ProtectedString> text; Content 1:
+    the <uri> text; CId: the <url> text).  None when the tree is degenerate."""
+    nodes, roots, props, cur = [], None, {}, None
+    for l in case_lines:
+        p = l.split(" ")
+        if p[0] == "node":
+            cur = int(p[1], 16)
+            nodes.append((cur, int(p[2], 16)))
+            props[cur] = {}
+        elif p[0] == "prop" and cur is not None and len(p) >= 3:
+            try:
+                name = bytes.fromhex(p[1]).decode("utf8")
+            except Exception:
+                continue
+            hexv = lambda x: b"" if x == "-" else bytes.fromhex(x)
+            try:
+                if p[2] == "Str" and len(p) >= 4:
+                    entry = ("Str", hexv(p[3]))
+                elif p[2] == "Content" and len(p) >= 5 and p[3] == "1":
+                    entry = ("Uri", hexv(p[4]))
+                elif p[2] == "CId" and len(p) >= 4:
+                    entry = ("Url", hexv(p[3]))
+                else:
+                    continue
+            except ValueError:
+                continue
+            if name in props[cur]:
+                props[cur][name] = None          # spelled twice on one instance: not compared
+            else:
+                props[cur][name] = entry
+        elif p[0] == "roots":
+            roots = [int(x, 16) for x in p[1:] if x]
+            cur = None
+    if roots is None:
+        return None
+    out = []
+
+    def walk(l):
+        out.append(props.get(l, {}))
+        for n in nodes:
+            if n[1] == l:
+                walk(n[0])
+    for r in roots:
+        walk(r)
+    return out
+
+
+def leaf_text_problem(pe, entry):
+    """the text an independent parser recovers from a string-like element must be the source value (an element the
+    writer leaves without a text event must not pick up indentation as its content)"""
+    kind, want = entry
+    try:
+        want_s = want.decode("utf8")
+    except UnicodeDecodeError:
+        return None
+    if "\r" in want_s:
+        return None                       # carriage returns: the recorded cr-normalised class
+    if kind == "Str" and pe.tag in ("string", "ProtectedString") and len(pe) == 0:
+        got = pe.text or ""
+    elif kind == "Uri" and pe.tag == "Content" and len(pe) == 1 and pe[0].tag == "uri" and len(pe[0]) == 0:
+        got = pe[0].text or ""
+    elif kind == "Url" and pe.tag == "ContentId" and len(pe) == 1 and pe[0].tag == "url" and len(pe[0]) == 0:
+        got = pe[0].text or ""
+    elif kind == "Url" and pe.tag == "Content" and len(pe) == 1 and pe[0].tag == "url" and len(pe[0]) == 0:
+        got = pe[0].text or ""
+    else:
+        return None                       # written under another type (conversion / migration): layout only
+    if got != want_s:
+        return "<%s name=%r>: an independent parser reads %r, the DOM has %r" % (pe.tag, pe.get("name"), got[:60], want_s[:60])
+    return None
+
+
 def check(text, case_lines):
     res = []
     if any(l.startswith("roots") for l in case_lines) and source_tree(case_lines) is None:
@@ -260,6 +334,7 @@ def check(text, case_lines):
                     raise Bad("layout", "SharedString definition is not base64")
                 shared[s.get("md5")] = True
         referents, refs, tree = {}, [], []
+        item_props = []
 
         def item(it):
             if it.get("class") is None or it.get("referent") is None:
@@ -285,6 +360,7 @@ def check(text, case_lines):
                 if pe.get("name") == "Name" and pe.tag == "string" and name is None:
                     name = pe.text or ""
             tree.append((it.get("class"), name))
+            item_props.append(list(props[0]))
             for c in it:
                 if c.tag == "Item":
                     item(c)
@@ -313,6 +389,15 @@ def check(text, case_lines):
                             raise Bad("cr-normalised", "Item #%d (%s): the Name %r contains a carriage return that is written literally; a conforming XML "
                                       "parser normalises it to a line feed (XML 1.0, 2.11) and reads %r" % (k + 1, c, sn, n))
                         raise Bad("name", "Item #%d (%s): an independent parser reads the Name %r, the DOM has %r" % (k + 1, c, n, sn))
+            leaves = source_leaves(case_lines)
+            if leaves is not None and len(leaves) == len(item_props):
+                for k, (want, pes) in enumerate(zip(leaves, item_props)):
+                    for pe in pes:
+                        entry = want.get(pe.get("name"))
+                        if entry and pe.get("name") != "Name":
+                            msg = leaf_text_problem(pe, entry)
+                            if msg:
+                                raise Bad("leaf-text", "Item #%d: %s" % (k + 1, msg))
     except Bad as b:
         res.append((b.key, b.msg))
     return res
